@@ -67,6 +67,7 @@ typedef struct qitem {
 	int prev_on_queue;   // item that ended last on this serial queue when this one started
 	int holds_width;     // counts against the width of narrowed queues while it runs (see item_begin)
 	int dom;             // serialising bottom of the hierarchy its queue was in when it was submitted (-1 none, -2 unknown: submitted while the queue was being retargeted)
+	int dom_new_chain;   // submitted to a moved queue after dispatch_set_target_queue had returned: runs inside the new chain
 } qitem;
 
 typedef struct qgen {
